@@ -840,7 +840,18 @@ func ruleAbortsImpl(fileScope func(string) bool, ruleID string, min int, onlyDef
 						ok, why = exhaustiveTypes(c, info, *chain, sealedFlowFacts[c.FuncName(d)])
 						why = "chain of type assertions read as a type switch: " + why
 					} else {
-						ok, why = exhaustive(c, info, sw, c.FuncName(d))
+						// flow facts given for a function also hold in an unexported helper only that function calls
+						factsFn := c.FuncName(d)
+						for up, hop := d, 0; sealedFlowFacts[factsFn] == nil && hop < 2; hop++ {
+							up = soleCaller(c, up)
+							if up == nil {
+								break
+							}
+							if sealedFlowFacts[c.FuncName(up)] != nil {
+								factsFn = c.FuncName(up)
+							}
+						}
+						ok, why = exhaustive(c, info, sw, factsFn)
 					}
 					if ok {
 						c.OK(ruleID, key, a.call.Pos(), why)
